@@ -319,7 +319,8 @@ def write_evidence(prop, tier, seed, sel, results, obligations, failed, undecide
         "property_id": prop, "tier": tier, "seed": seed, "level": "proof",
         "coverage": {
             "obligations": n_obl, "discharged": n_dis,
-            "checker_cmd": "; ".join(sorted({(r.get("cmd") or "").split(" --harness")[0] for r in results if r.get("cmd")})),
+            "checker_cmd": "; ".join(sorted({re.sub(r"--harness \S+", "--harness <unit harness>", re.sub(r"^verus \S+", "verus <extracted unit file>", r.get("cmd") or "")) for r in results if r.get("cmd")}))
+                           + "  [run per unit inside a scratch copy of /repo with the add-only overlay; exact per-unit commands under 'units']",
             "trusted_base": sorted(trusted),
             "functions_under_contract": fuc,
             "by_backend": by_backend,
@@ -330,7 +331,7 @@ def write_evidence(prop, tier, seed, sel, results, obligations, failed, undecide
             "verus_extraction": [{"unit": r["unit"], "functions": r.get("functions"), "dropped": r.get("dropped")}
                                  for r in results if r.get("kind") == "V"],
             "units": [{"id": u["id"], "engine": u["engine"], "kind": u.get("kind", "V"), "claim": u.get("claim", ""),
-                       "harness": u.get("harness")} for u in sel],
+                       "harness": u.get("harness"), "cmd": next((r.get("cmd") for r in results if r["unit"] == u["id"]), None)} for u in sel],
             "undecided": undecided,
             "known_findings_reported": known_lines,
             "sanity_mutants": mutant_log,
